@@ -224,8 +224,10 @@ def check_theorems(pid):
             continue
         if "Closed under the global context" in line or line.startswith("Axioms:"):
             continue
-        m = re.match(r"^([A-Za-z_][A-Za-z0-9_.']*)\s*:", line)
-        if m:
+        # an axiom is printed as "Qualified.name : type" with the type possibly continued on indented lines
+        # (for long names the " :" itself moves to the next line)
+        m = re.match(r"^([A-Za-z_][A-Za-z0-9_.']*)\s*(:|$)", line)
+        if m and not line.startswith(" "):
             res[cur].append(m.group(1))
     missing = [n for n in names if n not in res]
     if missing:
